@@ -1,0 +1,27 @@
+//go:build verif
+
+package cdi
+
+import "sync/atomic"
+
+// Verification hook points, compiled in only with the "verif" build tag.
+// A handler installed with VerifSetHook is called synchronously, on the
+// goroutine that reaches the point, with the name of the point, a string
+// and an integer argument that are already at hand at the call site.
+
+type verifHandler struct {
+	fn func(point string, arg string, n int)
+}
+
+var verifHook atomic.Value // of verifHandler
+
+// VerifSetHook installs (or with nil removes) the hook handler.
+func VerifSetHook(fn func(point string, arg string, n int)) {
+	verifHook.Store(verifHandler{fn: fn})
+}
+
+func verifPoint(point string, arg string, n int) {
+	if h, ok := verifHook.Load().(verifHandler); ok && h.fn != nil {
+		h.fn(point, arg, n)
+	}
+}
